@@ -17,7 +17,7 @@ def roles_of(facts, adt_path=ANIM_ADT):
         "timelines": lambda t: t == "TimelineMap",
         "current_state": lambda t: t == "State",
         "current_values": lambda t: "Target" in t and "Option" not in t,
-        "pause": lambda t: t.startswith("core::option::Option<(State"),
+        "pause": lambda t: t.startswith("core::option::Option<(State") and "Target" not in t,
         # the accumulated time in the current state: whatever representation it has (C06 judges the representation)
         "time": lambda t: t in ("core::time::Duration", "f32", "f64", "u64", "u128"),
     })
